@@ -7,7 +7,12 @@
    entries: BecomeLeader replays that tail and THEN initialises the session manager (explicit in the spec;
    the other order is a mutant that must be refuted).  On shards populated with 99 / 100 records the range
    deletes of the alphabet cover 99..102 keys - both sides of the threshold (100) at which
-   db.go:applyDeleteRange changes strategy - with session-owned keys in front of and behind the block.  Properties: ShadowMirror, CloseExact (exactly the records owned
+   db.go:applyDeleteRange changes strategy - with session-owned keys in front of and behind the block.  Puts
+   under a session are combined with the other features of a put (sess-steps-feat / sess-feat): sequence-key
+   deltas - the record is stored under a GENERATED key, the request key is only the prefix and may hold a
+   record of its own -, secondary-index entries, version conditions, overwrite of the own record; every
+   property is stated on the key of the record a put wrote (Sessions!EffKey), and OthersUntouched demands that
+   a request changes no record, shadow key or index entry of a key it does not touch.  Properties: ShadowMirror, CloseExact (exactly the records owned
    at that moment disappear, atomically with the session record), ownership follows the last writer, writes
    naming a dead session are rejected, ephemeral records only vanish by overwrite / delete / end of their
    session, expiry only after a full timeout without heartbeats on the current leader, sessions survive a
@@ -23,7 +28,9 @@
    outcome, the records, shadow keys, notification batch, version counter, the armed timers with their
    deadlines and the parked cleanups with the keys they listed are compared with the specification.
 3. code -> spec: random interleavings over a bigger key space (keys that need escaping, 4 sessions, timeouts
-   of 1-3 ticks, 2 operations per request, index entries, elections with lag 0..3, one trace in six on a shard
+   of 1-3 ticks, 2 operations per request, index entries, every second trace with sequence puts (deltas 1..3,
+   with and without session, the generated keys become keys of the trace) and version conditions,
+   elections with lag 0..3, one trace in six on a shard
    populated with 96..104 records and range deletes with bounds in and around that block) are recorded and
    judged by TLC (SessTrace.tla), which
    also evaluates every C14 property on every step of the real execution.
@@ -65,9 +72,9 @@ def _show(beh):
     return " ; ".join(out)
 
 
-def _replay(ctx, binp, path, label):
+def _replay(ctx, binp, path, label, scope=SCOPE):
     out = os.path.join(ctx.scratch, "replay-%s.json" % label)
-    ctx.run([binp, "replay", "-in", path, "-cmp", SCOPE, "-out", out, "-workers", str(max(4, min(14, ctx.cores - 2)))])
+    ctx.run([binp, "replay", "-in", path, "-cmp", scope, "-out", out, "-workers", str(max(4, min(14, ctx.cores - 2)))])
     res = json.load(open(out))
     res["mismatches"] = res.get("mismatches") or []
     ctx.replayed += res["behaviours"]
@@ -124,10 +131,10 @@ def _report_trace(ctx, path, verdict, hw, total, r, label):
                   (kind, len(calls) - 1, _show(calls), last.get("out"), last.get("armed"), last.get("pend")), p)
 
 
-def _drive(ctx, binp, n, ops, label, salt, racy=10, big=6):
+def _drive(ctx, binp, n, ops, label, salt, racy=10, big=6, feat=2):
     tp = os.path.join(ctx.scratch, "trace-%s.ndjson" % label)
     ctx.run([binp, "drive", "-seed", str(ctx.seed * 1000 + salt), "-n", str(n), "-ops", str(ops), "-racy", str(racy),
-             "-big", str(big), "-out", tp])
+             "-big", str(big), "-feat", str(feat), "-out", tp])
     verdict, hw, total, r = _validate(ctx, tp, "sess-trace.cfg", label)
     if verdict == "accepted":
         ctx.traces_validated += n
@@ -186,7 +193,7 @@ def run(ctx):
         "a leader change with lag 0 is a new leader controller on the same WAL and DB (close, NewLeaderController, NewTerm, BecomeLeader with RF=1); with lag k > 0 the new leader runs on the log and DB of a real follower controller that was fed the whole log with a commit offset k entries short (every entry of the old leader's log is on the elected node: what was acknowledged to a client is never lost - C01-C08's subject); a leader change while a cleanup is between its two steps is not enumerated (see known finding sessExpiryVsNewTerm)",
         "range deletes above the code's threshold are reached by populating the shard with plain records a-001.. (Fill) as the first call of a behaviour; the session-owned keys sort before (a) and after (b, a/b, ...) that block",
         "CloseSession of a session that is expiring (it waits for the expiry) is not enumerated",
-        "puts are unconditional in the enumerated alphabet (conditional writes are C12's subject; the random driver mixes them in)",
+        "ephemeral puts combined with the other features of a put (generated sequence key with the request key as prefix, one delta of 1; an index entry; expected version 'must not exist' / current) are enumerated on one key with one session, ended by CloseSession (quick) and also by expiry, with two sessions and a lagging election in the model (thorough); the random driver uses deltas 1..3 on every key of the trace, wrong versions, and writes / deletes the generated keys; the outcomes of the sequence generator and of version conditions themselves are C13's / C12's subject",
     ]
     # 1. the model
     r = ctx.tlc("SessionsMC", "sess-quick.cfg", label="model", heap="4g")
@@ -195,7 +202,8 @@ def run(ctx):
         for cfg, what in (("sess-thorough-a.cfg", "5 offsets, lag 0..1"), ("sess-thorough-b.cfg", "5 offsets, empty key, timeouts {1,2}, 2 heartbeats"),
                           ("sess-thorough-c.cfg", "key that needs escaping"),
                           ("sess-big.cfg", "shard populated with 98..101 records, 4 offsets, expiry, lag 0..1"),
-                          ("sess-big-b.cfg", "shard populated with 99 / 100 records, 5 offsets, 2 sessions")):
+                          ("sess-big-b.cfg", "shard populated with 99 / 100 records, 5 offsets, 2 sessions"),
+                          ("sess-feat.cfg", "ephemeral puts with generated sequence keys / index entries / version conditions, 4 offsets, 2 sessions, expiry, lag 0..1")):
             r = ctx.tlc("SessionsMC", cfg, label=cfg[5:-4], heap="6g")
             ctx.log("Sessions (%s): %d distinct states, %d transitions" % (what, r.distinct, r.generated))
     for cfg, what in (("sess-mutant-unguarded.cfg", "the properties without the known-finding guard"),
@@ -211,15 +219,19 @@ def run(ctx):
     # 2. spec -> code
     # (sess-steps-lag: only the behaviours that elect a node with a lagging DB; sess-steps-big: only those on a
     # populated shard, checked against the properties in the same run)
-    steps = ["sess-steps.cfg", "sess-steps-e.cfg", "sess-steps-lag.cfg", "sess-steps-big.cfg"]
+    # sess-steps-feat: only the behaviours with a put that combines session ownership with another feature of a
+    # put (generated sequence key, index entry, version condition); the raw index keys are compared as well)
+    steps = ["sess-steps.cfg", "sess-steps-e.cfg", "sess-steps-lag.cfg", "sess-steps-big.cfg", "sess-steps-feat.cfg"]
     if not quick:
-        steps += ["sess-steps-b.cfg", "sess-steps-c.cfg", "sess-steps-lag-b.cfg", "sess-steps-big-b.cfg"]
+        steps += ["sess-steps-b.cfg", "sess-steps-c.cfg", "sess-steps-lag-b.cfg", "sess-steps-big-b.cfg", "sess-steps-feat-b.cfg"]
     for cfg in steps:
         label = cfg[5:-4]
         path, n, r = _export(ctx, cfg, "STEP", label)
         if "big" in cfg:
             ctx.log("Sessions (populated shard, %s): %d distinct states, %d transitions, properties hold" % (cfg, r.distinct, r.generated))
-        _replay(ctx, binp, path, label)
+        if "feat" in cfg:
+            ctx.log("Sessions (ephemeral puts with sequence keys / index entries / version conditions, %s): %d distinct states, %d transitions, properties hold" % (cfg, r.distinct, r.generated))
+        _replay(ctx, binp, path, label, scope=SCOPE + ",idx" if "feat" in cfg else SCOPE)
         if cfg == "sess-steps.cfg":
             with open(path) as f:
                 lines = f.readlines()
@@ -228,6 +240,9 @@ def run(ctx):
                                 "demanded_after_last_call": {k: beh[-1][k] for k in ("out", "now", "armed", "pend", "shadow")}})
     path, n, _ = _export(ctx, "sess-runs.cfg", "RUN", "runs", simulate="num=%d" % (25 if quick else 250), depth=18, workers=1)
     _replay(ctx, binp, path, "runs")
+    if not quick:
+        path, n, _ = _export(ctx, "sess-runs-feat.cfg", "RUN", "runs-feat", simulate="num=60", depth=18, workers=1)
+        _replay(ctx, binp, path, "runs-feat", scope=SCOPE + ",idx")
 
     # 3. code -> spec
     tp = _drive(ctx, binp, 100 if quick else 600, 30, "random", 1, big=7 if quick else 5)
